@@ -22,6 +22,9 @@ def mon_c01(rec, F, weights, params):
     if r is None or r.status.name != "Optimal":
         return []
     w = weights or {}
+    shp = (np.shape(r.x), np.shape(r.y), np.shape(r.d))
+    if shp != ((F.n,), (F.m,), (F.n,)):
+        return [V("C01|result_shape", f"Optimal result with x, y, d of shapes {shp} for a problem with {F.n} variables and {F.m} constraint rows")]
     comp = O.kkt_complaints(F, r.x, r.y, r.d, params.opt_tol, params.active_tol, w.get("vw"), w.get("cw"), w.get("ow", 0))
     out = []
     for c in comp[:3]:
